@@ -75,11 +75,12 @@ PROPS['C17'] = {
 
 PROPS['C03'] = {
     'level': 'exploration',
+    'python_vectors': (4000, 60000),      # fresh vectors from spec/spec.py for every run (seeded by VERIF_SEED)
     'exhaustive_possible': True,
     'runs': [{'name': 'asan', 'flavour': 'asan', 'driver': 'drv_c03'},
              {'name': 'clang', 'flavour': 'clang-asan', 'driver': 'drv_c03', 'env': {'PV_SCALE': '20'}, 'shards': 6},
              {'name': 'native', 'flavour': 'asan-native', 'driver': 'drv_c03', 'env': {'PV_SCALE': '20'}, 'shards': 4}],
-    'require': {'encode.calls': 400000, 'bits.seeds': 13531, 'purity.histories_agree': 1000, 'reserved_bit.decodes': 100, 'oracle.vectors_reproduced': 3000, 'lengths.encoded': 1500, 'lengths.ko.decile8': 3, 'lengths.ko.decile6': 5, 'lengths.jp.decile4': 1},
+    'require': {'encode.calls': 400000, 'bits.seeds': 13531, 'purity.histories_agree': 1000, 'reserved_bit.decodes': 100, 'oracle.vectors_reproduced': 3000, 'lengths.encoded': 1500, 'pyvec.phrases_equal_to_python_spec': 3000, 'lengths.ko.decile8': 3, 'lengths.ko.decile6': 5, 'lengths.jp.decile4': 1},
 }
 
 _C16_FL = ['opt-O0', 'opt-O1', 'opt-O2', 'opt-O3', 'opt-Os', 'clang-O2']
@@ -121,7 +122,7 @@ PROPS['C08'] = {
 _TB = 'Trusted: gcc 12 + sanitizer runtimes, libutf8proc as NFC/NFKD, the reference model (validated at start-up against vectors from the independent Python spec and the vectors published in tests/tests.c), golden word lists of the pinned commit. '
 MANIFEST_TEXT = {
     'C03': {'technique': 'runtime monitoring: encode output vs executable reference model (ASan/UBSan build)',
-            'text': 'Every polyseed_encode output and stored check value of the run is compared byte-for-byte with an independent model of the published layout; the zero seed, all 164 loadable single-bit seeds and all their pairs are enumerated completely in every language for three coins (a bit-linear packing is determined by them), plus random/boundary seeds and the same seed reached through four different histories. Held-on-what-was-executed, not a proof. The NFC monitor clobbers its output buffer before reading its input (a conforming normaliser may), seeds are also encoded under a different enabled-feature mask, and a clang-built stripe repeats the workload.',
+            'text': 'Every polyseed_encode output and stored check value of the run is compared byte-for-byte with an independent model of the published layout; the zero seed, all 164 loadable single-bit seeds and all their pairs are enumerated completely in every language for three coins (a bit-linear packing is determined by them), plus random/boundary seeds and the same seed reached through four different histories. Held-on-what-was-executed, not a proof. The NFC monitor clobbers its output buffer before reading its input (a conforming normaliser may), seeds are also encoded under a different enabled-feature mask, and a clang-built stripe repeats the workload. Every run also draws fresh vectors from the independent Python statement of the format (spec/spec.py) and compares the library with them directly.',
             'note': _TB + 'Exhaustive only for the single-bit/pair sub-space.'},
     'C07': {'technique': 'runtime monitoring: exhaustive language x index x position sweep through the API vs golden lists (ASan/UBSan; assertion-enabled build in thorough)',
             'text': 'All 10 x 2048 x 16 (language, index, position) combinations are driven through polyseed_encode (harvesting the words the library emits) and through both decoders, and compared with the frozen lists; pairwise uniqueness clauses are evaluated on the harvested words and through the API. The finite space named by the property is enumerated completely; the claim is limited to the executions produced. A clang-built stripe (1/10 of the sweep) repeats both directions.',
